@@ -57,7 +57,12 @@ impl RefAuto {
 /// run `obs` through the implementation, checking the automaton and the statement's trace predicates
 /// after every step. Returns the failure description if any.
 pub fn check_sequence(obs: &mut dyn Iterator<Item = bool>, liveness_tail: bool) -> Result<(u64, u64), (String, String)> {
-    let mut imp = StatusState::new();
+    check_sequence_from(StatusState::new(), obs, liveness_tail)
+}
+
+/// the same, starting from a given freshly constructed automaton (`StatusState::new()` or `StatusState::default()`)
+pub fn check_sequence_from(fresh: StatusState, obs: &mut dyn Iterator<Item = bool>, liveness_tail: bool) -> Result<(u64, u64), (String, String)> {
+    let mut imp = fresh;
     let mut rf = RefAuto::new();
     let mut fail_run: u64 = 0; // consecutive failures ending at the current step
     let mut prev_ok = false;
@@ -142,6 +147,15 @@ pub fn exhaustive(len: u32, worker: u32, workers: u32, stats: &mut Stats) -> Opt
             }
             Err((sig, detail)) => {
                 return Some((sig, detail, (0..len).map(|i| (bits >> i) & 1 == 1).collect()));
+            }
+        }
+        // the other way to obtain a fresh automaton (the Default trait): every 18-step prefix, continued by failures
+        if bits < (1u64 << 18) {
+            let mut it = (0..len).map(|i| (bits >> i) & 1 == 1);
+            stats.eval();
+            stats.class("exhaustive:from-StatusState::default()");
+            if let Err((sig, detail)) = check_sequence_from(StatusState::default(), &mut it, (bits & 0xff) == 0) {
+                return Some((format!("{}(from-default-constructor)", sig), detail, (0..len).map(|i| (bits >> i) & 1 == 1).collect()));
             }
         }
         bits += workers as u64;
@@ -278,4 +292,4 @@ pub fn eval_notify(case: &NotifyCase, stats: &mut Stats) -> Outcome {
     Outcome::Pass
 }
 
-pub const RULE: &str = "health: (a) EXHAUSTIVE: every success/failure sequence of length 22 from the initial state (2^22; every shorter sequence is a prefix and all predicates are checked after every step), one in 256 followed by a liveness tail (2 successes => Success, 21 failures => Error, 1 success => not Error); (b) generated alternating runs with lengths around 1..3, 18..22 and the counters' saturation point 9999..10020, always followed by the liveness tail; (c) notification sequences over 3 keys x 3 values, max_count 120 (production) or small, repeat counts around max_count and 2*max_count. oracle: reference automaton + trace predicates from the statement (Error only with >= 20 consecutive failures ending at that step, never on a success step, two successes => Success), reference rate limiter. non-trivial: sequence with a failure run >= 19 or a saturating run; notification history with a run >= max_count; distinct by hash of the sequence.";
+pub const RULE: &str = "health: (a) EXHAUSTIVE: every success/failure sequence of length 22 from the initial state (2^22; every shorter sequence is a prefix and all predicates are checked after every step), one in 256 followed by a liveness tail (2 successes => Success, 21 failures => Error, 1 success => not Error); the 2^18 sequences whose last steps are failures are also run from StatusState::default(); (b) generated alternating runs with lengths around 1..3, 18..22 and the counters' saturation point 9999..10020, always followed by the liveness tail; (c) notification sequences over 3 keys x 3 values, max_count 120 (production) or small, repeat counts around max_count and 2*max_count. oracle: reference automaton + trace predicates from the statement (Error only with >= 20 consecutive failures ending at that step, never on a success step, two successes => Success), reference rate limiter. non-trivial: sequence with a failure run >= 19 or a saturating run; notification history with a run >= max_count; distinct by hash of the sequence.";
